@@ -268,7 +268,7 @@ type parProgram struct {
 var parGen = rapid.Custom(func(t *rapid.T) parProgram {
 	p := parProgram{}
 	p.Container = []string{"map", "mapof", "cache", "cacheof"}[uniform(t, 4, "container")]
-	p.Profile = []string{"write", "read", "range", "settings", "resize", "janitor"}[uniform(t, 6, "profile")]
+	p.Profile = []string{"write", "read", "range", "settings", "resize", "janitor", "bigtable"}[uniform(t, 7, "profile")]
 	p.G = []int{2, 3, 4, 8, 16, 32, 64}[uniform(t, 7, "goroutines")]
 	p.Ops = []int{50, 200, 600, 2000}[uniform(t, 4, "ops")]
 	if p.G >= 32 && p.Ops > 600 {
@@ -277,6 +277,12 @@ var parGen = rapid.Custom(func(t *rapid.T) parProgram {
 	p.Keys = []int{1, 2, 8, 64, 400}[uniform(t, 5, "keys")]
 	if p.Profile == "resize" {
 		p.Keys = []int{300, 1000, 4000}[uniform(t, 3, "resizeKeys")]
+	}
+	if p.Profile == "bigtable" {
+		// tables of thousands of buckets: resize strategies may differ there
+		p.Keys = []int{12000, 30000}[uniform(t, 2, "bigKeys")]
+		p.G = []int{2, 4, 8}[uniform(t, 3, "bigG")]
+		p.Ops = 24000 / p.G
 	}
 	p.Seed = rapid.Uint64().Draw(t, "seed")
 	return p
@@ -329,6 +335,7 @@ var profW = map[string][12]int{
 	"settings": {14, 14, 6, 6, 6, 4, 6, 4, 4, 1, 4, 30},
 	"resize":   {34, 6, 30, 4, 2, 2, 6, 4, 2, 4, 2, 1},
 	"janitor":  {30, 20, 4, 8, 6, 6, 8, 4, 4, 1, 4, 5},
+	"bigtable": {60, 10, 6, 6, 4, 4, 6, 2, 0, 0, 2, 0},
 }
 
 // runPar executes the program natively; returns an error text on a payload integrity failure.
@@ -460,7 +467,7 @@ func TestC14(t *testing.T) {
 		for k, v := range cm {
 			stats.Add("calls_"+k, v)
 		}
-		if p.G >= 2 && p.Keys <= 400 {
+		if p.G >= 2 && (p.Keys <= 400 || p.Profile == "bigtable") {
 			stats.NonTrivial(stats.Hash64(string(pj)))
 		}
 		stats.Sample(map[string]interface{}{"program": p, "calls": cm})
